@@ -1401,8 +1401,13 @@ class XMLSchemaBase(XsdValidator, ElementPathMixin[Union[SchemaType, XsdElement]
     def _validate_references(self, validation: str, context: ValidationContext) \
             -> Iterator[XMLSchemaValidationError]:
         # Check still enabled key references (lazy validation cases)
-        for identity, counter in context.identities.items():
+        for identity, counter in list(context.identities.items()):
             if counter.enabled and isinstance(identity, XsdKeyref):
+                refer = cast(KeyrefCounter, counter).refer
+                if refer is not None and refer not in context.identities:
+                    # The referred key is declared by an element whose table is not
+                    # available at this level: use an empty table for checking.
+                    context.identities[refer] = refer.get_counter(context.source.root)
                 for error in cast(KeyrefCounter, counter).iter_errors(context.identities):
                     yield context.validation_error(validation, self, error, context.source.root)
 
